@@ -9,6 +9,7 @@ import (
 	"math/big"
 	"sort"
 	"strings"
+	"time"
 
 	"golang.org/x/tools/go/ssa"
 )
@@ -98,6 +99,14 @@ type Exec struct {
 	nextObj int
 	objType map[int]types.Type
 	globals map[*ssa.Global]int
+	libGlobals map[int]bool
+	DecSegs bool // render %d of symbolic ints as decimal segments instead of digit bytes
+	MaxSymLen int
+	CaptureMark int
+	FeasCalls int
+	PruneIf   bool // ask the solver at every symbolic branch whether each side is feasible
+	Deadline  time.Time
+	MaxTerms  int
 
 	Obls     []Obligation
 	Sides    []SideObl
@@ -140,9 +149,9 @@ type Exec struct {
 func NewExec(prog *ssa.Program, pkg *ssa.Package, mode string) *Exec {
 	s := NewStore()
 	e := &Exec{S: s, Prog: prog, Pkg: pkg,
-		objType: map[int]types.Type{}, globals: map[*ssa.Global]int{},
+		objType: map[int]types.Type{}, globals: map[*ssa.Global]int{}, libGlobals: map[int]bool{}, MaxSymLen: 16,
 		inputBy: map[string]*Term{}, axiomSeen: map[string]bool{}, ufSites: map[string][]*Term{},
-		UFUsed: map[string]int{}, Known: map[string]bool{}, Unwind: 40,
+		UFUsed: map[string]int{}, Known: map[string]bool{}, Unwind: 40, MaxTerms: 3000000,
 		finfo: map[*ssa.Function]*FuncInfo{}, FuncsSeen: map[string]string{}, Stubs: map[string]int{},
 		FloatSites: map[string]string{}, LemmaPoints: map[string][]float64{}}
 	switch mode {
@@ -234,6 +243,16 @@ func (e *Exec) globalObj(st *State, g *ssa.Global) int {
 	e.objType[id] = t
 	e.globals[g] = id
 	st.Mem[id] = e.zeroVal(t)
+	// library globals whose initialiser matters (library init functions are not executed)
+	if g.Pkg != nil && g.Pkg != e.Pkg {
+		switch g.Pkg.Pkg.Path() + "." + g.Name() {
+		case "io.EOF":
+			st.Mem[id] = e.mkError(&StrV{Conc: "EOF"})
+		case "io.ErrUnexpectedEOF":
+			st.Mem[id] = e.mkError(&StrV{Conc: "unexpected EOF"})
+		}
+	}
+	e.libGlobals[id] = true
 	return id
 }
 
@@ -283,6 +302,18 @@ func (e *Exec) loadPath(st *State, v Val, path []Step, where string) Val {
 	}
 	lo, hi := e.idxRange(stp.Idx, len(a.Elems))
 	var res Val
+	if hi-lo > 64 {
+		// large, mostly lazily-zero array: all nil elements share the zero value
+		res = e.loadPath(st, e.zeroVal(elemType(a.Typ, 0)), path[1:], where)
+		for j := hi; j >= lo; j-- {
+			if a.Elems[j] == nil {
+				continue
+			}
+			ev := e.loadPath(st, a.Elems[j], path[1:], where)
+			res = e.mergeVal(e.S.Eq(stp.Idx, e.S.Int(int64(j))), ev, res)
+		}
+		return res
+	}
 	for j := hi; j >= lo; j-- {
 		ev := e.loadPath(st, e.aggElem(a, j), path[1:], where)
 		if res == nil {
@@ -741,6 +772,14 @@ func (e *Exec) transfer(fr *frame, st *State, from, to *ssa.BasicBlock, occ int)
 
 func (e *Exec) execBlock(fr *frame, b *ssa.BasicBlock, st *State) {
 	e.BlocksExec++
+	if e.BlocksExec%64 == 0 {
+		if e.MaxTerms > 0 && e.S.NumTerms() > e.MaxTerms {
+			panic(&UnsupportedErr{Msg: fmt.Sprintf("execution budget exceeded: %d terms", e.S.NumTerms())})
+		}
+		if !e.Deadline.IsZero() && time.Now().After(e.Deadline) {
+			panic(&UnsupportedErr{Msg: "execution budget exceeded: time"})
+		}
+	}
 	for _, in := range b.Instrs {
 		if st.dead() {
 			return
@@ -766,6 +805,13 @@ func (e *Exec) execBlock(fr *frame, b *ssa.BasicBlock, st *State) {
 					ct = e.S.True
 				} else if e.implied(st.G, e.S.Not(ct), 0) {
 					ct = e.S.False
+				}
+			}
+			if !ct.IsConst() && e.PruneIf {
+				if !e.Feasible(e.S.And(st.G, ct)) {
+					ct = e.S.False
+				} else if !e.Feasible(e.S.And(st.G, e.S.Not(ct))) {
+					ct = e.S.True
 				}
 			}
 			if ct.IsTrue() {
